@@ -140,7 +140,8 @@ def check_case(eng, res, L, form, en, data, cfg, sigs, label=None, refparse=refi
                 eng.report(f"dumps does not parse back to the same array (terminator / element boundaries): {str(back)[:200]}", cd, sigs_back)
             eng.model_write(L, want[1], d, "array dumps", sigs)
         # a fixed-size array of non-character elements with another number of elements is refused
-        if form in ("fixed", "multidim") and en not in ("char", "wchar", "uleb128", "ileb128", "dynstruct") and isinstance(obj.a, list) and T.fields["a"].type.size is not None:
+        # (also for elements without a static size - uleb128, dynamic structures: the code used to skip the check there, fixed F62)
+        if form in ("fixed", "multidim") and en not in ("char", "wchar") and isinstance(obj.a, list):
             for delta in (+1, -1):
                 o2 = T(data)
                 arr = list(o2.a)
